@@ -166,7 +166,9 @@ def finish(ctx, level, explanation, trusted_base, assumptions, t0, replay_keys=N
               known_findings_reported=len(viol) - len(new_viol))
     if ev["level"] == "other" and level == "proof":
         ev["coverage"]["explanation"] = "(not all obligations discharged on this run, so no proof is claimed) " + explanation
-    if replay_keys is None:
+    if replay_keys is None and not os.environ.get("VERIF_NO_EVIDENCE"):
+        # (VERIF_NO_EVIDENCE is set by the self-test tools that run checks against deliberately
+        # broken scratch states of /repo: those runs must not overwrite the evidence of the real tree)
         with open(os.path.join(VERIF, "evidence", "%s.json" % ctx.prop), "w") as fh:
             json.dump(ev, fh, indent=1, default=str)
     for e in ctx.errors:
